@@ -221,6 +221,14 @@ func (rn *runner) do(line string) {
 	after := w.cur
 	// Close frees unrelated symbols in map order: its events are always compared as a set
 	obs := w.observe(rn.seq && !strings.HasPrefix(line, "close"), ret, evs)
+	if strings.HasPrefix(line, "close") && strings.HasPrefix(ret, "err") {
+		// which flow fails first, and so what is left, depends on the order in which Close frees
+		// unrelated symbols: only "Close failed" is compared with the model (that fact does not
+		// depend on the order: every active symbol is unloaded by Close unless it aborts); the
+		// oracle checks the rest on the real log
+		obs = "err"
+		rn.c.Hit("close-returned-error")
+	}
 	rn.res.lines = append(rn.res.lines, line)
 	rn.res.outs = append(rn.res.outs, obs)
 	if strings.HasPrefix(ret, "err") || strings.HasPrefix(ret, "PANIC") {
@@ -357,6 +365,7 @@ func (rn *runner) oracleC08(line, ret string, evs []ev, before, after map[int]*l
 		}
 	}
 	aborted := false
+	abortSubj := 0
 	for bi, b := range bs {
 		if aborted {
 			rn.fail("C08", "error-does-not-abort", fmt.Sprintf("%q: events %v follow a lifecycle flow that answered with an error", line, b))
@@ -401,6 +410,7 @@ func (rn *runner) oracleC08(line, ret string, evs []ev, before, after map[int]*l
 			a := cands[best][1].([]int)
 			if len(a) > 0 {
 				aborted = true
+				abortSubj = subj
 				if ret != codes(a) {
 					rn.fail("C08", "error-not-returned", fmt.Sprintf("%q: the flow of symbol %d answered %s but the operation returned %s", line, subj, codes(a), ret))
 				}
@@ -419,6 +429,32 @@ func (rn *runner) oracleC08(line, ret string, evs []ev, before, after map[int]*l
 	}
 	if !aborted && strings.HasPrefix(ret, "err") {
 		rn.fail("C08", "error-not-returned", fmt.Sprintf("%q returned %s but no lifecycle flow answered with an error", line, ret))
+	}
+	if aborted && len(evs) > 0 && evs[len(evs)-1].k == 'C' {
+		rn.fail("C08", "error-does-not-abort", fmt.Sprintf("%q: a node was closed after the lifecycle flow of symbol %d answered with an error", line, abortSubj))
+	}
+	if strings.HasPrefix(line, "close") {
+		// what Close leaves behind (independent of the order in which it frees unrelated symbols)
+		keys := rn.w.keys()
+		if !aborted {
+			if len(keys) != 0 {
+				rn.fail("C08", "close-incomplete", fmt.Sprintf("Close ran no failing lifecycle flow but symbols [%s] are still in the table", ints(keys)))
+			}
+		} else {
+			if !has(keys, abortSubj) {
+				rn.fail("C08", "error-does-not-abort", fmt.Sprintf("Close: symbol %d was removed although its lifecycle flow answered with an error", abortSubj))
+			}
+			for _, e := range evs {
+				if e.k == 'C' && has(keys, e.subj) {
+					rn.fail("C08", "close-incomplete", fmt.Sprintf("Close: the node of symbol %d was closed but the symbol is still in the table", e.subj))
+				}
+			}
+			for _, k := range keys {
+				if _, ok := before[k]; !ok {
+					rn.fail("C08", "close-incomplete", fmt.Sprintf("Close: symbol %d appeared in the table", k))
+				}
+			}
+		}
 	}
 	// dependencies first
 	pos := func(k byte) map[int]int {
@@ -540,8 +576,11 @@ func genCase(c *lib.Ctx, r *lib.RNG, which string) []string {
 			lines = append(lines, fmt.Sprintf("free %d", id))
 		default:
 			if u.chain && u.hasFail {
-				// with a failing flow the point at which Close aborts depends on map order
-				continue
+				// with a failing flow the point at which Close aborts depends on map order: the
+				// states of model and implementation may differ afterwards, so it ends the case
+				c.Hit("op-close-failing-universe")
+				lines = append(lines, "close")
+				return lines
 			}
 			c.Hit("op-close")
 			if !u.chain {
@@ -549,6 +588,15 @@ func genCase(c *lib.Ctx, r *lib.RNG, which string) []string {
 			}
 			lines = append(lines, "close")
 		}
+	}
+	// the table's final Close is part of the case (it used to be an unchecked teardown)
+	if lines[len(lines)-1] != "close" && r.Chance(1, 2) {
+		if u.chain && u.hasFail {
+			c.Hit("op-close-failing-universe")
+		} else {
+			c.Hit("op-close")
+		}
+		lines = append(lines, "close")
 	}
 	return lines
 }
@@ -623,7 +671,7 @@ func RunProp(c *lib.Ctx, which string) {
 			c.Violation("model driver failed: "+err.Error(), "", false)
 		}
 	}
-	c.Rule = "each case = one universe (≤5 ids + one never-inserted id, ≤8 symbol versions, 2 namespaces, by-id and by-name references, shared targets, self-references, cycles, dangling references; or a chain universe with responders that may fail) and one history of ≤14 Insert (new/replace/rename) / Free / Close on the real symbol.Table with real nodes; after every op keys, out-port links, the reverse-reference index, the active set and the op's events are compared with Uniflow.Table.step. Non-trivial: ≥5 lines, a link existed and an unload happened; distinct by the op lines."
+	c.Rule = "each case = one universe (≤5 ids + one never-inserted id, ≤8 symbol versions, 2 namespaces, by-id and by-name references, shared targets, self-references, cycles, dangling references; or a chain universe with responders that may fail) and one history of ≤14 Insert (new/replace/rename) / Free / Close on the real symbol.Table with real nodes; after every op keys, out-port links, the reverse-reference index, the active set and the op's events are compared with Uniflow.Table.step. In universes with failing responders a Close ends the case and, when it fails, only the fact that it failed is compared with the model (what is left depends on map order); the C08 oracle checks on the real log that the returned error is the failing flow's, that nothing runs after it and what is left in the table. Non-trivial: ≥5 lines, a link existed and an unload happened; distinct by the op lines."
 	c.Assumptions = []string{
 		"names are unique per namespace among live symbols (generator enforces it; it is what the runtime's unique index gives the table); each port reference has exactly one of id / name; ids are non-nil",
 		"port names are canonical (no use of the alias out == out[0] of OneToManyNode); no spec names the error port",
